@@ -101,6 +101,7 @@ func SwarmConfig(p *PRNG, o SwarmOpts) Config {
 	c.BlockSec = int64(p.Range(1, 8))
 	c.ProposerAny = p.Chance(1, 8)
 	c.HugeAmounts = p.Chance(1, 8)
+	c.FeederSwap = len(c.Assets) >= 2 && p.Chance(1, 3)
 	return c
 }
 
